@@ -842,6 +842,59 @@ FOLDER_TREES = [
 FOLDER_PREFIXES = ['', 'pre', 'pre/fix', 'pre\\fix', 'pre/']
 
 
+def failed_reload_stream(ck: Ck) -> None:
+    """State carried between calls on an error path: the saved directory file is damaged from outside, `load_dirfile()` on the open
+    object raises half-way (it leaves the entries read so far), the file is restored, `load_dirfile()` is called again: the object must
+    hold exactly what was saved (the reset at the start of load_dirfile).  Only searched; the model gives None for the failed load."""
+    rng = random.Random(ck.seed * 31 + 5)
+    n = bud(ck, 6, 12, 40)
+    done = tries = 0
+    while done < n and tries < n * 6:
+        tries += 1
+        case = gen_case(rng, small=True, api=False)
+        if not case['ops'] or case['ops'][-1][0] != 'reopen' or case['ops'][-1][1] == 'w':
+            continue
+        res = run_impl(case, want_files=True)
+        try:
+            vpk, path, disk = res['vpk'], res['path'], res['disk']
+            want = observe(vpk)
+            if not want or len(disk) < 30:
+                continue
+            want_foot = dg(vpk.footer_data)
+            ck.count('oracle_failed_reload_cases')
+            cut = 12 + rng.randrange(1, max(2, (len(disk) - 12) // 2))
+            failed = False
+            with open(path, 'wb') as f:
+                f.write(disk[:cut])
+            try:
+                with impl_deadline(60):
+                    vpk.load_dirfile()
+            except ImplTimeout:
+                raise
+            except Exception:      # noqa
+                failed = True
+            partial = len(vpk)
+            with open(path, 'wb') as f:
+                f.write(disk)
+            ck.hist('failed_reload', f"{'raised' if failed else 'loaded-truncated'}/partial={'0' if partial == 0 else 'some'}")
+            try:
+                vpk.load_dirfile()
+                got, got_foot = observe(vpk), dg(vpk.footer_data)
+            except Exception as e:      # noqa
+                ck.violation('reload-after-failed-load', f'load_dirfile() on the restored file raised {type(e).__name__}: {e}'[:300],
+                             {'case': case, 'how': f'checks.c13.failed_reload_stream: run the case, truncate the directory file to {cut} bytes, load_dirfile() (raises), restore, load_dirfile()'})
+                continue
+            if got != want or got_foot != want_foot:
+                ck.violation('reload-after-failed-load', f'after a load_dirfile() that failed on a damaged file and a second one on the restored file: missing '
+                             f'{sorted(set(want) - set(got))[:3]} extra {sorted(set(got) - set(want))[:3]} differing {[k for k in want if k in got and got[k] != want[k]][:3]}',
+                             {'case': case, 'how': f'checks.c13.failed_reload_stream: truncate the directory file to {cut} bytes, load_dirfile() (raises), restore, load_dirfile()'})
+            elif failed:
+                ck.seen(('failed-reload', repr(case)))
+            done += 1
+        finally:
+            shutil.rmtree(res['dir'], ignore_errors=True)
+
+
 def folder_stream(ck: Ck) -> None:
     """add_folder (every file below a directory is added under <prefix>/<relative folder>/<name>) and extract_all, against files on
     disk: only searched, not modelled."""
@@ -1595,7 +1648,9 @@ def run(ck: Ck) -> None:
                'sections of strings incl. lengths around 255/256 and damaged streams. nested dicts: 1..8 files over 3 extensions x 4 folders x 3 '
                'stems then 1..6 deletes; sequences of 2..14 new_file/del from an empty archive with 4 membership probes. folders: add_folder over 3 '
                'directory trees x 5 prefixes, extract_all; add_file/new_file with root= (6 cases), script_write on the 3 trees. Rejected calls (read-only '
-               'archive, index out of range, existing / missing / unrepresentable name) are part of the histories: the caller carries on after the error.')
+               'archive, index out of range, existing / missing / unrepresentable name) are part of the histories: the caller carries on after the error. '
+               'failed reload: a saved archive whose directory file is truncated from outside, load_dirfile() raising half-way, the file restored, '
+               'load_dirfile() again; non-trivial = the first load raised.')
     ck.trusted.append('hand-written models Fmt/VpkDir.v, Fmt/VpkDirV2.v, SM/Vpk.v, Fmt/VpkName.v, string primitives of Fmt/VpkArchName.v (tied by '
                       'differential correspondence on every run); zlib.crc32 incl. its chaining property; posixpath.normpath; '
                       'translate/c13_archname.py, c13_nullstr.py, c13_nested.py, c13_api.py, c13_names.py, c13_dirprog.py; hand-written SM/VpkApi.v, SM/VpkNested.v, '
@@ -1738,6 +1793,7 @@ def run(ck: Ck) -> None:
     t0 = __import__('time').time()
     staged(ck, search)
     staged(ck, folder_stream)
+    staged(ck, failed_reload_stream)
     staged(ck, root_and_script_stream)
     if os.environ.get('C13_TIMING'):
         print(f'  [timing] search: {__import__("time").time() - t0:.1f}s')
